@@ -81,6 +81,10 @@ class Gen:
                 continue
             seen.add(k)
             fields.append([hx(k), r.choice(FIELD_VALS + ["-2", "314159", "1/2"] if self.wide else FIELD_VALS)])
+        if r.random() < 0.08:
+            tags.append([hx("a.b"), opt_hx(self.tag_val())])       # a key containing the separator of select keys
+        if r.random() < 0.06:
+            fields.append([hx("f.g"), r.choice(FIELD_VALS)])
         m = meas if meas is not None else r.choice(self.meas)
         return ["pt", time or self.time(), hx(m), ["tags"] + tags, ["fields"] + fields]
 
@@ -88,7 +92,8 @@ class Gen:
 
     def time_leaf(self):
         r = self.r
-        t = f"t:{T0 + r.choice([0, 1, 2, 4, 8]) + (self.tbase if r.random() < 0.7 else r.randrange(self.tbase + 1))}" + r.choice(PRES)
+        base = self.tbase if (self.tbase <= 0 or r.random() < 0.7) else r.randrange(self.tbase + 1)
+        t = f"t:{T0 + r.choice([0, 1, 2, 3, 4, 8]) + base}" + r.choice(PRES)
         c = r.random()
         if c < 0.7:
             return ["cmp", r.choice(CMPS), t]
@@ -236,7 +241,8 @@ class Gen:
         if k == "search":
             op = ["search", q, m, r.choice(["0", "1"])]
         elif k == "select":
-            keys = r.sample(["time", "measurement", "t:" + hx("a"), "f:" + hx("f"), "t:" + hx("zz")], r.randint(1, 3))
+            keys = r.sample(["time", "measurement", "t:" + hx("a"), "f:" + hx("f"), "t:" + hx("zz"), "t:" + hx("a.b"),
+                             "f:" + hx("f.g")], r.randint(1, 3))
             op = ["select", ["keys"] + keys, q, m]
         else:
             op = [k, q, m]
